@@ -356,7 +356,7 @@ class Normalizer:
     """Rewrites one function.  `resolve(call, cls) -> (qualname, FunctionDef, ClassInfo|None, bind_self: bool) | None`."""
 
     def __init__(self, resolve: Callable, cls=None, keep: Optional[Set[str]] = None, depth: int = 3,
-                 lower_ifexp: bool = True, lower_comps: bool = False, max_stmts: int = 80):
+                 lower_ifexp: bool = True, lower_comps: bool = False, max_stmts: int = 160):
         self.resolve = resolve
         self.cls = cls
         self.keep = set(keep or ())
